@@ -242,7 +242,7 @@ func verifC04MutateProof(rt *rapid.T, proof [][]byte, others [][][]byte) ([][]by
 }
 
 func TestVerifC04_Proofs(t *testing.T) {
-	kit.Run(t, "C04", kit.Budget{Quick: 800, Thorough: 10000},
+	kit.Run(t, "C04", kit.Budget{Quick: 700, Thorough: 6000},
 		"TF trie (gogo-proto, blake2b|sha256, maxTrieLevelInMemory 1..6, committed or not) over a KG key set of 1-25 keys; every present key is verified with its own proof; absent keys derived from each present key (one nibble changed at every position, truncated at either end, extended at either end, empty key, unrelated pool/random keys, keys of a second trie) are verified against the proof of the key they derive from and against other keys' proofs; mutated proofs (drop/duplicate/swap/flip/truncate/junk/nil/splice/type byte) are verified for present and absent keys. Non-trivial = an absent key whose path agrees with a present key on every branch choice and differs only inside an extension node's key or in length, verified against that present key's genuine proof; distinct by (trie contents, absent key)",
 		func(rt *rapid.T, c *kit.Case) {
 			g := verifTBNewKeyGen(rt)
@@ -314,7 +314,7 @@ func TestVerifC04_Proofs(t *testing.T) {
 			}
 
 			// (b) absent keys derived from present keys
-			nontrivialInCase := false
+			nontrivialInCase, extOnlyInCase := false, false
 			for i, kv := range model.kvs {
 				for _, d := range verifC04DerivedKeys(rt, kv.k) {
 					if model.has(d) {
@@ -326,6 +326,7 @@ func TestVerifC04_Proofs(t *testing.T) {
 						nontrivialInCase = true
 						c.NonTrivial(model.keysString() + "|" + hex.EncodeToString(d))
 						if extOnly {
+							extOnlyInCase = true
 							c.Class("absent-differs-only-inside-extension")
 							c.Sample("trie keys {%s}: proof of %x has shape %s; absent key %x differs only inside an extension node",
 								model.keysString(), kv.k, verifC04ShapeString(shapes[i]), d)
@@ -351,6 +352,9 @@ func TestVerifC04_Proofs(t *testing.T) {
 			}
 			if nontrivialInCase {
 				c.Class("case-nontrivial")
+			}
+			if extOnlyInCase {
+				c.Class("case-with-absent-key-differing-only-inside-extension")
 			}
 
 			// unrelated keys against every proof
